@@ -62,9 +62,13 @@ def gen_mixed(rng, n, avoid_f14=False, avoid_f15=False, avoid_f16=False):
             line, d = upd(rng, svc, addr, origin, now, **kw)
             ops.append(line)
             owner[(svc, addr)] = d
-        elif r < 0.6:
+        elif r < 0.57:
             cid = rng.choice(["-", "-"] + CLIENTS + REMOTE)
             ops.append("del svc=%s ip=%s port=%d cid=%s now=%d" % (svc, addr[0], addr[1], cid, now))
+        elif r < 0.6:
+            # the apply of a committed Raft removal of a persistent record (sent on deregistration of a persistent
+            # instance and when a persistent instance is re-registered as ephemeral)
+            ops.append("raftrm svc=%s ip=%s port=%d now=%d" % (svc, addr[0], addr[1], now))
         elif r < 0.67:
             ops.append("%s %s now=%d" % (rng.choice(["rmclient", "rmclientc"]), rng.choice(CLIENTS + REMOTE), now))
         elif r < 0.75:
@@ -100,6 +104,14 @@ def gen_timeline(rng, n_inst=3):
             kw = dict(eph=0)
         line, _ = upd(rng, svc, a, "grpc" if k == "grpc" else "http", now, **kw)
         ops.append(line)
+    # now and then a persistent instance is re-registered as an ephemeral one; the Raft removal of the persistent record
+    # follows: from then on it is an ordinary ephemeral HTTP instance
+    for j, (a, k) in enumerate(zip(insts, kinds)):
+        if k == "persistent" and rng.random() < 0.4:
+            now += 1000
+            ops.append("upd svc=%s ip=%s port=%d eph=1 grpc=0 fc=0 cid=- healthy=1 en=1 w=1000 tag=- sync=0 now=%d" % (svc, a[0], a[1], now))
+            ops.append("raftrm svc=%s ip=%s port=%d now=%d" % (svc, a[0], a[1], now + 50))
+            kinds[j] = "http"
     beating = [rng.random() < 0.6 for _ in insts]
     for step in range(rng.randrange(3, 14)):
         now += rng.choice([2000, 5000, 5000, 17990, 18000, 18010, 15000, 33000, 33010, 40000])
